@@ -853,8 +853,11 @@ class Interp:
             pr = base.ci.properties.get(e.attr)
             if pr and "get" in pr:
                 return self.call_function(pr["get"], {"__selfval__": base}, "__value__")
-        if isinstance(base, (str, list, dict, tuple, int, float)):
+        if isinstance(base, (str, list, dict, tuple, int, float)) and base is not None:
             return _Bound(base, e.attr)
+        if base is None:
+            self.path.trace.append(("raise", "AttributeError", f"None.{e.attr}"))
+            raise Raised("AttributeError")   # an attribute of None: what Python raises
         raise Undecidable(f"attribute {e.attr} of {base!r}")
 
     def e_List(self, e, frame):
@@ -1255,6 +1258,12 @@ class Interp:
             fv = self.eval(f, frame)
             if isinstance(fv, (_Closure, _MethodRef)):
                 return fv(*self._pos_args(e, frame), **{k.arg: self.eval(k.value, frame) for k in e.keywords if k.arg})
+            if isinstance(fv, Residual) and self.unknown_calls == "residual":
+                # a callee that is itself an unknown value (a class object taken from a table): an unknown call of that value
+                args_ = self._pos_args(e, frame)
+                kw_ = {k.arg: self.eval(k.value, frame) for k in e.keywords if k.arg}
+                self.path.trace.append(("call", fv.text, (args_, kw_)))
+                return Residual(f"{fv.text}({', '.join([txt(a) for a in args_] + [k + '=' + txt(v) for k, v in kw_.items()])})")
             raise Undecidable(f"computed callee {full}")
         args = self._pos_args(e, frame)
         kwargs = {}
